@@ -97,6 +97,9 @@ class Ref:
             self.rim = np.array(spec["rim"], dtype=float)
             self.n = geom.unit(spec["normal"])
             self.lo, self.hi = spec["bounds"] if spec.get("bounds") else (0.0, 2 * math.pi)
+            # the given origin is a point of the axis; the circle's centre is the foot of the rim point on the axis
+            d = self.rim - self.o
+            self.o = self.o + float(np.dot(d, self.n)) * self.n
             self.radius = float(np.linalg.norm(self.rim - self.o))
             self.e1 = (self.rim - self.o) / self.radius
             self.e2 = np.cross(self.n, self.e1)
@@ -350,6 +353,9 @@ def gen_curve(rng, kind=None):
         normal = frame[2] * rng.choice([1.0, 1.0, 0.3, 7.0])  # not necessarily a unit vector
         phi = rng.uniform(0, 2 * math.pi)
         rim = np.asarray(origin) + r * (math.cos(phi) * frame[0] + math.sin(phi) * frame[1])
+        if rng.random() < 0.3:
+            # "lifted": the origin is another point of the axis, not the foot of the rim point
+            origin = [float(x) for x in np.asarray(origin) + scale * rng.uniform(-1.5, 1.5) * frame[2]]
         u = rng.random()
         if u < 0.45:
             bounds = None  # the full (closed) circle
